@@ -606,6 +606,19 @@ def judge_render(case, paras):
             k, end = walk(0, x, 0)
             if k is not None and abs(end - (ln['x'] + width)) > EPS:
                 bad.append(('extents-add-up', 'line %d children end at %s, line box at %s' % (i, end, ln['x'] + width)))
+        # (d') extents add up (rtl): the in-flow children of the line box, in visual order, tile the line box
+        if case['rtl']:
+            top = sorted((it for it in ln['items'] if it['depth'] == 0 and it['kind'] not in ('float', 'abs')
+                          and mbw(it) > EPS), key=lambda it: it['x'])
+            xx = ln['x']
+            for it in top:
+                if abs(it['x'] - xx) > EPS:
+                    bad.append(('extents-add-up', 'line %d (rtl) child (%s) at %s, expected %s' % (i, it['kind'], it['x'], xx)))
+                    break
+                xx += mbw(it)
+            else:
+                if top and abs(xx - (ln['x'] + width)) > EPS:
+                    bad.append(('extents-add-up', 'line %d (rtl) children end at %s, line box at %s' % (i, xx, ln['x'] + width)))
         # (f) stacking
         if simple and i + 1 < len(lines):
             if abs(lines[i + 1]['y'] - (ln['y'] + ln['h'])) > EPS:
@@ -716,20 +729,33 @@ def free_interval(B, floats, top, bottom):
     return left, right
 
 
-def judge_floats(case, blocks):
-    bad = []
+def float_lines(blocks):
+    """the main container and its lines that hold something"""
     mains = [b for b in blocks if b['main']]
     if len(mains) != 1:
-        return [('paragraph-rendered-once', 'line 0 %d containers' % len(mains))]
+        return None, []
     B = mains[0]
-    floats, lines, fs = B['floats'], B['lines'], case['fs']
-    got = ' '.join(ln['text'].strip(' ') for ln in lines if ln['text'].strip(' '))
+    return B, [ln for ln in B['lines'] if ln['text'].strip(' ') or ln['w'] > 0]
+
+
+def judge_floats(case, blocks, hyp=None):
+    """hyp = (line index, dl, dr): judge that line only, in the free interval reduced by dl at the left and dr at the
+    right (used by classify_floats to test a hypothesis about the mechanism of an alarm)"""
+    bad = []
+    B, lines = float_lines(blocks)
+    if B is None:
+        return [('paragraph-rendered-once', 'line 0 %d containers' % len([b for b in blocks if b['main']]))]
+    floats, fs = B['floats'], case['fs']
+    got = ' '.join(ln['text'].strip(' ') for ln in B['lines'] if ln['text'].strip(' '))
     if got != ' '.join(case['words']):
         return [('lines-cover-text', 'line 0 texts %r' % got[:80])]
-    lines = [ln for ln in lines if ln['text'].strip(' ') or ln['w'] > 0]
     for i, ln in enumerate(lines):
+        if hyp is not None and i != hyp[0]:
+            continue
         top, bottom = ln['y'], ln['y'] + ln['h']
         left, right = free_interval(B, floats, top, bottom)
+        if hyp is not None:
+            left, right = left + hyp[1], right - hyp[2]
         avail = right - left
         text = ln['text'].strip(' ')
         last = i == len(lines) - 1
@@ -763,14 +789,59 @@ def judge_floats(case, blocks):
 
 
 def classify_floats(case, blocks, clause, detail):
-    """no open finding concerns lines next to floats any more (F50, F51, F135, F183, F184, F187 are repaired)"""
+    """signature of the open finding whose mechanism explains this alarm on this line (None: unexplained).
+    F202 inline-float-placed-below-its-line-takes-room-on-it: clause float-greedy only (the position of such a line
+      is repaired: 3498515); the line holds a float that the float layout placed below the line (rule 5 of CSS 2.1
+      9.5.1 or clear), and the line is greedy and fits when the width of that float is taken from the free interval at
+      the float's side; a float that waited for the end of the line because it did not fit fails the fit test.
+    F203 line-trailing-space-kept-before-out-of-flow-box: clause float-fit; the last text of the line ends with a
+      collapsible space that is followed, in the line, by a float; the line fits without that space.
+    F50, F51, F135, F183, F184, F187, F201 (line box of a line holding a left float) and F210 (rtl) are repaired: no
+    branch for them."""
+    import re
+    m = re.match(r'line (\d+)', detail)
+    B, lines = float_lines(blocks)
+    if m is None or B is None or int(m.group(1)) >= len(lines):
+        return None
+    i = int(m.group(1))
+    ln = lines[i]
+    items = ln['items']
+    fl = [it for it in items if it['kind'] == 'float']
+    if not fl:
+        return None
+    below = [it for it in fl if it['y'] >= ln['y'] + ln['h'] - EPS]
+    sides = {}
+    for it in below:
+        for f in B['floats']:
+            if abs(f['x'] - it['x']) < EPS and abs(f['y'] - it['y']) < EPS and abs(f['mw'] - mbw(it)) < EPS:
+                sides[id(it)] = f['side']
+    dl = sum(mbw(it) for it in below if sides.get(id(it)) == 'left')
+    dr = sum(mbw(it) for it in below if sides.get(id(it)) == 'right')
+    # the collapsible space kept at the end of the text of the line because a float follows it in the line (F203)
+    last_text, kept = None, 0
+    for k, it in enumerate(items):
+        if it['kind'] == 'text' and it['text']:
+            last_text = k
+        elif it['kind'] == 'atomic':
+            last_text = None
+    if last_text is not None and items[last_text]['text'].endswith(' ') and \
+            any(it['kind'] == 'float' for it in items[last_text + 1:]):
+        kept = items[last_text]['fs']
+    left, right = free_interval(B, B['floats'], ln['y'], ln['y'] + ln['h'])
+    if (dl or dr) and clause == 'float-greedy':
+        if ln['w'] - kept <= (right - dr) - (left + dl) + EPS and \
+                clause not in [c for c, _ in judge_floats(case, blocks, hyp=(i, dl, dr))]:
+            return 'inline-float-placed-below-its-line-takes-room-on-it'
+    if clause == 'float-fit' and kept and ln['w'] - kept <= right - left + EPS:
+        return 'line-trailing-space-kept-before-out-of-flow-box'
     return None
 
 
 def classify_render(case, paras, clause, detail):
     """signature of the open finding whose mechanism applies to the offending line (None: unexplained).
     Open: F118 (a collapsible space dropped inside a line), F120 (coarse: paragraphs with soft hyphens).  The branches
-    for F116, F117, F119, F135, F136 were removed when those findings were repaired in /repo."""
+    for F116, F117, F119, F135, F136 and F200 (end spacing of an inline box after an atomic last child) were removed when
+    those findings were repaired in /repo."""
     import re
     m = re.match(r'line (\d+)', detail)
     lines = paras[0]['lines'] if len(paras) == 1 else []
@@ -784,35 +855,6 @@ def classify_render(case, paras, clause, detail):
         return 'render-soft-hyphen-paragraph'
     if clause == 'space-dropped-inside-line':
         return 'text-box-trailing-space-dropped-mid-line'
-    # an inline box that ends with an atomic box (inline-block, ...) followed by end margin/border/padding: the end
-    # spacing is not counted when the atomic box is fitted (it is only subtracted when a text child is laid out
-    # again), so the box overflows the line by at most that spacing, or is moved whole to the next line
-    if clause in ('no-overflow-unless-one-unit', 'greedy', 'justify-fills', 'line-inside-block', 'text-align') and here:
-        avail = paras[0]['w']
-
-        def end_sp(it):
-            return (it['ml'] + it['bl'] + it['pl']) if case['rtl'] else (it['mr'] + it['br'] + it['pr'])
-
-        def ends_with_atomic(items, k):
-            it = items[k]
-            sub = items[k + 1:k + 1 + it.get('span', 0)]
-            kids = [x for x in sub if x['depth'] == it['depth'] + 1 and x['kind'] not in ('float', 'abs')
-                    and not (x['kind'] == 'text' and not x['text'])]
-            if not kids:
-                return False
-            last = kids[-1]
-            if last['kind'] == 'atomic':
-                return True
-            return last['kind'] == 'inline' and end_sp(last) == 0 and ends_with_atomic(items, items.index(last))
-        for pos, l_ in enumerate(here):
-            for k, it in enumerate(l_['items']):
-                if it['kind'] == 'inline' and end_sp(it) > 0 and ends_with_atomic(l_['items'], k):
-                    total = sum(end_sp(x) for x in l_['items'] if x['kind'] == 'inline')
-                    if clause == 'greedy':
-                        if pos == 1 or l_['w'] > avail + EPS:
-                            return 'inline-end-spacing-after-atomic-last-child-not-counted'
-                    elif pos == 0 and l_['w'] - total <= avail + EPS:
-                        return 'inline-end-spacing-after-atomic-last-child-not-counted'
     return None
 
 
@@ -1010,7 +1052,8 @@ def stream_render(run, rng, n):
                          'white-space x overflow-wrap x word-break x text-align x text-indent, soft hyphens (12%), spans with '
                          'padding/border/margin (nested <= 2), inline-blocks, mixed sizes (15%), rtl (10%), a float before '
                          'the paragraph (8%); clauses: lines cover the source once, breaks only at allowed opportunities, '
-                         'no overflow unless one unit, greedy, inside the block / text-align / justify fills, extents add up, '
+                         'no overflow unless one unit, greedy, inside the block / text-align / justify fills, extents add up (ltr: every '
+                         'nesting level; rtl: the children of the line box tile it), '
                          'stacking y+h; distinct = style combination')
 
 
